@@ -32,6 +32,9 @@ NUMPY_VIEWS = {
     "moveaxis", "rollaxis", "squeeze", "expand_dims", "diagonal", "diag", "split", "array_split",
     "hsplit", "vsplit", "dsplit", "real", "imag", "flip", "fliplr", "flipud", "rot90", "nditer",
     "require", "lib.stride_tricks.as_strided", "matrix_transpose", "permute_dims",
+    # structured <-> plain re-interpretations return views whenever the layout allows it
+    "lib.recfunctions.structured_to_unstructured", "lib.recfunctions.unstructured_to_structured",
+    "lib.stride_tricks.sliding_window_view", "lib.stride_tricks.broadcast_to",
 }
 VIEW_METHODS = {"ravel", "reshape", "transpose", "view", "squeeze", "swapaxes", "diagonal", "byteswap",
                 "newbyteorder", "getfield", "__array__"}
